@@ -428,7 +428,7 @@ def cli(argv=None, mode='output'):
         # random graph arguments have been built with)
         try:
             opb = args.generator.build_formula(args, formula_class=OPB)
-        except (CLIError, ValueError) as e:
+        except (CLIError, ValueError, TypeError) as e:
             args.generator.subparser.error(e)
         except RuntimeError as e:
             raise InternalBug(e) from e
